@@ -491,6 +491,9 @@ func (i If) byteCode(srcsel int, fl flags.Pass, cr compResult) bytecode.Type {
 		*cr.DS = append(*cr.DS, value.Nil)
 		instr = bytecode.New(bytecode.PUSH) | bytecode.EncodeSrc(0, bytecode.AddrDS, ix)
 		*cr.CS = append(*cr.CS, instr)
+
+		// the no result path leaves nil on the stack even if the true case never completes
+		dest = bytecode.EncodeSrc(srcsel, bytecode.AddrStck, 0)
 	}
 
 	// patch the JMPF
